@@ -42,6 +42,7 @@ type Observed struct {
 	Dup      bool  // a member name occurred twice in an emitted object
 	RawBody  string
 	Problems []string // peer-level trouble (timeouts, unparsable frames)
+	Dead     bool     // the server stopped answering well-formed pings (the rest of the batch is pointless)
 	PanicLog string
 }
 
@@ -613,9 +614,9 @@ func (t *sseTarget) sentinel(p *ssePeer) ([]string, string) {
 	if err != nil || st != 202 {
 		return nil, fmt.Sprintf("sentinel ping: status %d err %v", st, err)
 	}
-	fr, ok := p.takeUntil(id, 10*time.Second)
+	fr, ok := p.takeUntil(id, 5*time.Second)
 	if !ok {
-		return nil, "the sentinel ping was not answered on the stream within 10s"
+		return nil, "the sentinel ping was not answered on the stream within 5s"
 	}
 	return fr, ""
 }
@@ -663,12 +664,13 @@ func (t *sseTarget) Exchange(in Input) Observed {
 		}
 	}
 	// whatever the request goroutine emits is queued before it ends; the sentinel's answer is queued after that
-	if why := waitQuiet(10 * time.Second); why != "" {
+	if why := waitQuiet(5 * time.Second); why != "" {
 		o.Problems = append(o.Problems, why)
 	}
 	frames, why := t.sentinel(t.peer)
 	if why != "" {
 		o.Problems = append(o.Problems, why)
+		o.Dead = true
 	}
 	for _, f := range frames {
 		v, dup, err := Canon([]byte(f))
@@ -811,9 +813,9 @@ func (t *stdioTarget) sentinel(p *stdioPeer) ([]string, string) {
 	if _, err := p.in.Write([]byte(`{"jsonrpc":"2.0","id":"` + id + `","method":"ping"}` + "\n")); err != nil {
 		return nil, "writing the sentinel ping: " + err.Error()
 	}
-	fr, ok := p.takeUntil(id, 10*time.Second)
+	fr, ok := p.takeUntil(id, 5*time.Second)
 	if !ok {
-		return nil, "the sentinel ping was not answered within 10s"
+		return nil, "the sentinel ping was not answered within 5s"
 	}
 	return fr, ""
 }
@@ -830,13 +832,16 @@ func (t *stdioTarget) Exchange(in Input) Observed {
 	a, why := t.sentinel(t.peer)
 	if why != "" {
 		o.Problems = append(o.Problems, why)
+		o.Dead = true
+		return o
 	}
-	if why := waitQuiet(10 * time.Second); why != "" {
+	if why := waitQuiet(5 * time.Second); why != "" {
 		o.Problems = append(o.Problems, why)
 	}
 	b, why := t.sentinel(t.peer)
 	if why != "" {
 		o.Problems = append(o.Problems, why)
+		o.Dead = true
 	}
 	for _, f := range append(a, b...) {
 		v, dup, err := Canon([]byte(f))
